@@ -65,6 +65,8 @@ theorem HSame_of_noSuffix (env : CEnv) (h : env.cfg.literalTypeBySuffixOnly = fa
   | .call _ _ _ _ => by simp only [HSame]
   | .stmtexpr _ _ _ => by simp only [HSame]
   | .seqexpr _ _ _ _ _ => by simp only [HSame]
+  | .callx _ _ _ _ _ => by simp only [HSame]
+  | .xmacro _ _ _ => by simp only [HSame]
 theorem HSameL_of_noSuffix (env : CEnv) (h : env.cfg.literalTypeBySuffixOnly = false) :
     (as : List CExpr) → HSameL env as = true
   | [] => by simp only [HSameL]
